@@ -98,18 +98,19 @@ func c07r910(p *model.Prog, r *report.Result) {
 		}
 		return ia.X, true
 	}
-	loops := model.Loops(feed)
-	inLoop := func(b *ssa.BasicBlock) bool {
-		for _, l := range loops {
-			if l.Body[b] {
+	inLoopOf := func(in ssa.Instruction) bool {
+		for _, l := range model.Loops(in.Parent()) {
+			if l.Body[in.Block()] {
 				return true
 			}
 		}
 		return false
 	}
 	nInter, nKey := 0, 0
-	model.EachInstr(feed, func(in ssa.Instruction) {
-		st, ok := in.(*ssa.Store)
+	// FeedAvPacket with its same-package helpers inlined: a helper that writes the tag header
+	// gets the key / inter values as parameters; they are resolved at each call
+	model.EachInstrDeep(feed, 2, func(d model.DeepInstr) {
+		st, ok := d.In.(*ssa.Store)
 		if !ok {
 			return
 		}
@@ -117,7 +118,7 @@ func c07r910(p *model.Prog, r *report.Result) {
 		if !is0 {
 			return
 		}
-		k, isK := model.ConstInt(st.Val)
+		k, isK := model.ConstInt(d.Resolve(st.Val))
 		if !isK {
 			return
 		}
@@ -129,19 +130,29 @@ func c07r910(p *model.Prog, r *report.Result) {
 			return
 		}
 		nInter++
-		ok2 := !inLoop(st.Block()) || model.GuardedBy(st, func(c ssa.Value, pol bool) bool {
+		looped := inLoopOf(st)
+		for _, ci := range d.Chain {
+			if inLoopOf(ci) {
+				looped = true
+			}
+		}
+		ok2 := !looped || d.GuardedBy(func(c ssa.Value, pol bool) bool {
 			bo, isB := c.(*ssa.BinOp)
 			if !isB || (bo.Op != token.NEQ && bo.Op != token.EQL) {
 				return false
 			}
-			var other ssa.Value
 			var ld ssa.Value
-			if kv, isKv := model.ConstInt(bo.Y); isKv && keyVals[kv] {
-				ld, other = bo.X, bo.Y
-			} else if kv, isKv := model.ConstInt(bo.X); isKv && keyVals[kv] {
-				ld, other = bo.Y, bo.X
+			var kv int64
+			if v, isKv := model.ConstInt(d.Resolve(bo.Y)); isKv && keyVals[v] {
+				ld, kv = bo.X, v
+			} else if v, isKv := model.ConstInt(d.Resolve(bo.X)); isKv && keyVals[v] {
+				ld, kv = bo.Y, v
 			}
-			_ = other
+			// the key value tested must be the one of the codec whose inter value is stored
+			// (both carry the codec id in the low nibble)
+			if kv&0x0f != k&0x0f {
+				return false
+			}
 			u, isU := ld.(*ssa.UnOp)
 			if !isU || u.Op != token.MUL {
 				return false
@@ -152,7 +163,7 @@ func c07r910(p *model.Prog, r *report.Result) {
 			}
 			return (bo.Op == token.NEQ) == pol
 		})
-		r.Check(ok2, "C07.R10", fkey(feed, "keyflag", "not-overwritten"), p.InstrPos(st), "inter-frame mark only when the unit is not already marked key", "the frame-type byte is set to 'inter frame' for every non-IDR NAL unit of the access unit, also after an IDR/IRAP slice set it to 'key frame': an IDR followed by filler data (CBR encoders) or an end-of-sequence NAL is forwarded as an inter frame, and consumers waiting for a key frame skip it")
+		r.Check(ok2, "C07.R10", fkey(feed, "keyflag", "not-overwritten"), p.InstrPos(st), "inter-frame mark only when the unit is not already marked key", "the frame-type byte is set to 'inter frame' for every non-IDR NAL unit of the access unit, also after an IDR/IRAP slice set it to 'key frame' (the test in front of the store does not compare with this codec's key-frame value): an IDR followed by filler data (CBR encoders) or an end-of-sequence NAL is forwarded as an inter frame, and consumers waiting for a key frame skip it")
 	})
 	if nInter < 2 || nKey < 2 {
 		r.Bad("C07.R10", fkey(feed, "keyflag", "floor"), p.Pos(feed.Pos()), fmt.Sprintf("expected the AVC and HEVC frame-type stores, found %d key / %d inter", nKey, nInter))
